@@ -68,7 +68,8 @@ def synth(name, args, is_env, n, dimen='{2pt}'):
     return '\\%s%s' % (name, out)
 
 
-def _candidates():
+def _candidates(packages=()):
+    """-> [(name, args, is_env, package or None)]"""
     import importlib
     import pkgutil
     import plasTeX
@@ -76,11 +77,15 @@ def _candidates():
     L = sys.modules['plasTeX.Base.LaTeX']      # (the attribute plasTeX.Base.LaTeX is the \\LaTeX logo class)
     out = []
     seen = set()
-    for mi in sorted(x.name for x in pkgutil.iter_modules(L.__path__)):
+    mods = [('plasTeX.Base.LaTeX.' + x.name, None) for x in sorted(pkgutil.iter_modules(L.__path__), key=lambda m: m.name)]
+    mods += [('plasTeX.Packages.' + p.replace('-', '_'), p) for p in packages]
+    for modname, pkg in mods:
         try:
-            mod = importlib.import_module('plasTeX.Base.LaTeX.' + mi)
+            mod = importlib.import_module(modname)
         except Exception:
             continue            # (Entities.py is a stand-alone generator script, not a module of macros)
+        if pkg is not None:
+            seen = set()        # (a package may redefine a base macro: that is worth having)
         for cname, cls in sorted(vars(mod).items()):
             if not (isinstance(cls, type) and issubclass(cls, plasTeX.Macro) and cls.__module__ == mod.__name__):
                 continue
@@ -93,7 +98,7 @@ def _candidates():
                 continue
             seen.add(name)
             is_env = issubclass(cls, plasTeX.Environment)
-            out.append((name, getattr(cls, 'args', '') or '', is_env))
+            out.append((name, getattr(cls, 'args', '') or '', is_env, pkg))
     return out
 
 
@@ -101,15 +106,16 @@ def _alarm(signum, frame):
     raise TimeoutError()
 
 
-def _build_in_child():
+def _build_in_child(packages=()):
     from plasTeX.TeX import TeX
     ok = []
     signal.signal(signal.SIGALRM, _alarm)
-    for k, (name, args, is_env) in enumerate(_candidates()):
+    for k, (name, args, is_env, pkg) in enumerate(_candidates(packages)):
         text = synth(name, args, is_env, k)
         if text is None:
             continue
-        src = '\\documentclass{article}\\begin{document}\\section{S}\\label{fzl1} A %s B.\\end{document}' % text
+        src = '\\documentclass{article}%s\\begin{document}\\section{S}\\label{fzl1} A %s B.\\end{document}' % (
+            '\\usepackage{%s}' % pkg if pkg else '', text)
         try:
             signal.alarm(2)
             t = TeX()
@@ -117,14 +123,15 @@ def _build_in_child():
             d = t.parse()
             d.toXML()
             signal.alarm(0)
-            ok.append([name, text, args, is_env])
+            ok.append([name, text, args, is_env, pkg])
         except BaseException:
             signal.alarm(0)
     return ok
 
 
-def build():
-    """Runs in a forked child so that the parent stays pristine (parsing fills per-class caches)."""
+def build(packages=()):
+    """Runs in a forked child so that the parent stays pristine (parsing fills per-class caches).
+    -> [[name, text, args, is_env, package or None], ...]"""
     r, w = os.pipe()
     pid = os.fork()
     if pid == 0:
@@ -133,7 +140,7 @@ def build():
             dn = os.open(os.devnull, os.O_WRONLY)
             os.dup2(dn, 1)
             os.dup2(dn, 2)
-            data = pickle.dumps(_build_in_child())
+            data = pickle.dumps(_build_in_child(packages))
             os.write(w, data)
         finally:
             os._exit(0)
